@@ -279,6 +279,21 @@ func Le(a, b Term) Term { return cmp("<=", a, b) }
 func Gt(a, b Term) Term { return cmp(">", a, b) }
 func Ge(a, b Term) Term { return cmp(">=", a, b) }
 
+// Ix is the absolute index off+i of element i of a slice with offset off. It is kept as the
+// uninterpreted application (ix off i) (defined by an axiom) so that quantified facts about
+// slice elements have an arithmetic-free trigger; with a literal zero offset it is just i.
+func Ix(off, i Term) Term {
+	if n, ok := off.numeral(); ok {
+		if n.Sign() == 0 {
+			return i
+		}
+		if _, ok2 := i.numeral(); ok2 {
+			return Add(off, i)
+		}
+	}
+	return App(SInt, "ix", off, i)
+}
+
 func Select(arr, idx Term) Term {
 	// arr sort "(Array Int X)": strip to X
 	s := arr.Sort
